@@ -166,7 +166,9 @@ func (o lop) String() string {
 	return o.Kind
 }
 
-func genLockstep(rng *mon.RNG, jump bool) []lop {
+func genLockstep(rng *mon.RNG, jump bool, z *zone) []lop {
+	genLong = z.set()
+	defer func() { genLong = false }()
 	n := rng.Range(10, 60)
 	var ops []lop
 	// prologue: a few entries and a Start, in either order
@@ -204,7 +206,11 @@ func genLockstep(rng *mon.RNG, jump bool) []lop {
 		case r < 60:
 			ops = append(ops, lop{Kind: "release"})
 		default:
-			ops = append(ops, genSleep(rng, jump))
+			if z.set() {
+				ops = append(ops, genSleepLoc(rng, jump))
+			} else {
+				ops = append(ops, genSleep(rng, jump))
+			}
 		}
 	}
 	return ops
@@ -255,19 +261,17 @@ func genSleep(rng *mon.RNG, jump bool) lop {
 
 func runLockstep(t *testing.T, idx int, mode string, rng *mon.RNG) {
 	jump := mode == "jump"
-	ops := genLockstep(rng, jump)
-	phase := time.Duration(rng.Intn(7200)) * time.Second
-	if rng.Chance(1, 3) {
-		phase += time.Duration(rng.Range(1, 999)) * time.Millisecond
-	}
+	z := pickZone(rng)
+	ops := genLockstep(rng, jump, z)
+	phase := genPhase(rng, z)
 	yield := rng.Intn(3)
 	var hs []string
 	for _, o := range ops {
 		hs = append(hs, o.String())
 	}
-	desc := fmt.Sprintf("%s phase=%v yield=%d %s", mode, phase, yield, strings.Join(hs, " "))
+	desc := fmt.Sprintf("%s loc=%s phase=%v yield=%d %s", mode, z.name, phase, yield, strings.Join(hs, " "))
 	rec.Begin(idx, desc)
-	w := &world{idx: idx, mode: mode, history: hs, yield: yield, yieldRng: mon.NewRNG("c05-yield", idx)}
+	w := &world{idx: idx, mode: mode, zone: z, history: hs, yield: yield, yieldRng: mon.NewRNG("c05-yield", idx)}
 	res := bubble(t, w, func() {
 		if jump {
 			w.vc = vclock.New(time.Date(2000, 1, 1, 0, 0, 0, 0, time.UTC).Add(phase))
